@@ -34,6 +34,9 @@ type c07Step struct {
 	Key int    `json:"key,omitempty"`
 	Val int    `json:"val,omitempty"`
 	G   int    `json:"g,omitempty"`
+	// Sk: bit i set = a no-op field (zap.Skip / zap.Error(nil)) is inserted before position i of the field slice handed to
+	// zap (bit len = after the last). No-op fields carry no information: model and oracle do not see them.
+	Sk int `json:"sk,omitempty"`
 }
 
 type c07Op struct {
@@ -85,6 +88,9 @@ func (p *progGen) fields(n int, intsOnly bool) []fldJ {
 }
 
 func (p *progGen) add(s c07Step, kind string) {
+	if len(s.Fs) > 0 && (s.S == "with" || s.S == "lazy" || s.S == "fields" || s.S == "log") && p.r.Chance(1, 2) {
+		s.Sk = p.r.Intn(1 << uint(len(s.Fs)+1))
+	}
 	p.steps = append(p.steps, s)
 	if kind != "" {
 		p.kinds = append(p.kinds, kind)
@@ -481,6 +487,31 @@ func c07Exec(raw json.RawMessage) Result {
 		var nn *c07Node
 		var on *oNode
 		fs := w.fields(st.Fs)
+		// the slice handed to zap belongs to the caller: it carries the no-op fields of st.Sk, has spare capacity holding
+		// sentinels, and must read the same after the call (C07:caller-slice-modified)
+		var mine []zapcore.Field
+		if len(st.Fs) > 0 && (st.S == "with" || st.S == "lazy" || st.S == "fields" || st.S == "log") {
+			buf := make([]zapcore.Field, 0, len(fs)+len(fs)+4)
+			for i, f := range fs {
+				if st.Sk>>uint(i)&1 == 1 {
+					if i%2 == 0 {
+						buf = append(buf, zap.Skip())
+					} else {
+						buf = append(buf, zap.Error(nil))
+					}
+				}
+				buf = append(buf, f)
+			}
+			if st.Sk>>uint(len(fs))&1 == 1 {
+				buf = append(buf, zap.Skip())
+			}
+			fs = buf
+			full := fs[:cap(fs)]
+			for i := len(fs); i < len(full); i++ {
+				full[i] = zap.Int("sentinel", i)
+			}
+			mine = append([]zapcore.Field(nil), full...)
+		}
 		switch st.S {
 		case "with":
 			switch {
@@ -571,6 +602,17 @@ func c07Exec(raw json.RawMessage) Result {
 			must(par.h.Handle(context.Background(), rec))
 		default:
 			panic("step " + st.S)
+		}
+		if mine != nil {
+			full := fs[:cap(fs)]
+			for i := range full {
+				if full[i].Type != mine[i].Type || full[i].Key != mine[i].Key || full[i].Integer != mine[i].Integer ||
+					full[i].String != mine[i].String || full[i].Interface != mine[i].Interface {
+					fail(bad("C07:caller-slice-modified", "step %d (%s): element %d of the field slice passed by the caller reads %s/%q after the call, was %s/%q",
+						si, st.S, i, fmt.Sprint(full[i].Type), full[i].Key, fmt.Sprint(mine[i].Type), mine[i].Key))
+					break
+				}
+			}
 		}
 		seq := w.rec.take()
 		obs := w.drainObs()
